@@ -28,10 +28,11 @@ def shanks3(e0, e1, e2):
     return e1 + corr, corr, d1, d2, sss
 
 
-def wynn_table(terms):
-    """Wynn's epsilon table from exact terms.  Returns list of columns: col[k][n] =
-    eps_k^{(n)}; stops a column when a difference vanishes (returns what exists and a flag).
-    """
+def wynn_table(terms, perturb=None):
+    """Wynn's epsilon table from exact terms.  Returns (columns, ok): col[k][n] = eps_k^{(n)};
+    ok is False when a difference vanished (the table stops there).
+    `perturb`, if given, is applied to every computed entry (used to model the rounding of a
+    floating-point evaluation of the same recursion: entry -> entry*(1 +- eps))."""
     s = [F(t) for t in terms]
     cols = [[Fraction(0)] * (len(s) + 1), s]     # eps_{-1}, eps_0
     ok = True
@@ -43,7 +44,8 @@ def wynn_table(terms):
             if d == 0:
                 ok = False
                 break
-            new.append(prev[n + 1] + 1 / d)
+            v = prev[n + 1] + 1 / d
+            new.append(perturb(v) if perturb is not None else v)
         if not ok:
             break
         cols.append(new)
